@@ -594,6 +594,65 @@ func sortTimes(ts []time.Time) {
 	}
 }
 
+// unknownTotalEveryTokenFired: discard_overflow off and a shared profile whose total is unknown — a
+// long row of small once parts followed by a short unlimited part — used by 16 instances with an
+// instantaneous gun: the boundaries between the parts are crossed while other instances ask
+// whether the profile is finished. Every request of the once parts must be fired (counted, not
+// timed): fired ≥ what the known parts hold; nothing is discarded; the run ends by itself.
+func unknownTotalEveryTokenFired(res *vkit.Result, rounds int) {
+	c := map[string]any{"layer": "unknown-total profile", "instances": 16, "profile": "3000 × once(2), unlimited(1ms)", "discard_overflow": false, "rounds": rounds}
+	bad := ""
+	for r := 0; r < rounds && bad == ""; r++ {
+		const parts = 3000
+		var ps []core.Schedule
+		for i := 0; i < parts; i++ {
+			ps = append(ps, schedule.NewOnce(2))
+		}
+		ps = append(ps, schedule.NewUnlimited(time.Millisecond))
+		shared := schedule.NewComposite(ps...)
+		prov := &vkit.MockProvider{Items: -1, FailAfter: -1}
+		aggr := &vkit.MockAggregator{}
+		plan := vkit.NewGunPlan()
+		eng := engine.New(vkit.NopLog(), vkit.NewMetrics(), engine.Config{Pools: []engine.InstancePoolConfig{{
+			ID: "p", Provider: prov, Aggregator: aggr, NewGun: plan.NewGun,
+			NewRPSSchedule: func() (core.Schedule, error) { return shared, nil }, StartupSchedule: schedule.NewOnce(16), DiscardOverflow: false,
+		}}})
+		done := make(chan error, 1)
+		ctx, cancel := context.WithCancel(context.Background())
+		go func() { done <- eng.Run(ctx) }()
+		select {
+		case err := <-done:
+			if err != nil {
+				bad = fmt.Sprintf("round %d: the run failed: %v", r, err)
+			}
+		case <-time.After(60 * time.Second):
+			res.Inconclusive(false, "unknown-total round %d did not end within 60 s", r)
+			cancel()
+			return
+		}
+		cancel()
+		eng.Wait()
+		fired, discarded := plan.ShotCount(), 0
+		for _, sm := range aggr.Snapshot() {
+			if sm.Net == 777 {
+				discarded++
+			}
+		}
+		if bad == "" && fired < 2*parts {
+			bad = fmt.Sprintf("round %d: the once parts hold %d requests, only %d were fired (discard_overflow is off, %d reported as discarded): %d requests were handed out by the profile and never fired", r, 2*parts, fired, discarded, 2*parts-int(fired))
+		}
+		if bad == "" && discarded > 0 {
+			bad = fmt.Sprintf("round %d: %d requests reported as discarded although discard_overflow is off", r, discarded)
+		}
+		res.Count("unknown_total_rounds", 1)
+		res.Count("unknown_total_requests_fired", fired)
+	}
+	if bad != "" {
+		res.Violate("C04/discard-off/unknown-total/not-fired", bad, c)
+	}
+	res.Eval(vkit.JSON(c), true)
+}
+
 func main() {
 	res := vkit.NewResult("mock pools in real time: 1–4 instances, const/line 5–50 rps for 1–6 s, scripted response-time histories (all fast; one 2.1–3.6 s stall; a stall followed by tokens lying in the future; sustained slow target; slower than the interval but inside the 2 s window; profile started 1.5–3.5 s in the past), discard_overflow on/off; distinct = distinct case descriptions; non-trivial = the case produced late-but-fired or discarded tokens")
 	rng := vkit.Rand("c04")
@@ -616,6 +675,7 @@ func main() {
 	}
 	wg.Wait()
 	sharedFirstUse(res, vkit.N(3000, 20000))
+	unknownTotalEveryTokenFired(res, vkit.N(25, 300))
 	if bin := os.Getenv("VERIF_PANDORA_BIN"); bin == "" {
 		res.Inconclusive(true, "no pandora binary (VERIF_PANDORA_BIN)")
 	} else {
